@@ -95,7 +95,7 @@ EvOf(m, r) == [type |-> m.type, m |-> m, ok |-> r.ok, resp |-> r.resp,
                signers |-> {SignerOf(m)}, dom |-> "spec"]
 
 IsBlockEv(e) == e.type = "BeginBlock"
-IsObsEv(e)   == e.type \in {"Init", "Restart", "ExportImport", "Query", "Replica"}
+IsObsEv(e)   == e.type \in {"Init", "Restore", "Restart", "ExportImport", "Query", "Replica"}
 
 \* ------------------------------------------------------------------ ghost ledger
 \* gh.issued : set of [denom, n]      amount issued into each batch so far
